@@ -607,6 +607,12 @@ func run(c *core.Ctx) {
 	}
 	defer os.RemoveAll(base)
 	total := newAgg()
+	phase := map[string]float64{}
+	t0 := time.Now()
+	lap := func(name string) {
+		phase[name] = time.Since(t0).Seconds()
+		t0 = time.Now()
+	}
 
 	// ---- (1) exhaustive small scope
 	if only == "" || only == "small" {
@@ -627,6 +633,7 @@ func run(c *core.Ctx) {
 		}
 		runShards(c, total, base, shards)
 	}
+	lap("small_scope_wall_s")
 	smallEvals := total.evals
 	c.Extra("small_scope", map[string]any{"max_length": pl.SmallMaxN, "buffers": pl.SmallBufs, "limits": pl.SmallLims,
 		"extra_max_length": pl.ExtraMaxN, "extra_buffers": pl.ExtraBufs, "extra_limits": pl.ExtraLims,
@@ -646,12 +653,17 @@ func run(c *core.Ctx) {
 		}
 		runShards(c, total, base, shards)
 	}
+	lap("large_wall_s")
 	c.Extra("large_cases", total.evals-smallEvals)
 
 	// ---- (3) plugin level
 	if only == "" || only == "plugin" {
 		runPluginLevel(c, total, base, pl.PluginRuns)
 	}
+
+	lap("plugin_wall_s")
+	c.Extra("phase_wall_s", phase)
+	fmt.Printf("phases: %v\n", phase)
 
 	total.flush(c)
 
